@@ -6,7 +6,7 @@ from . import common, tlc, factory_cfg
 
 F_INVS = ["F_C01_Cap", "F_C03_OnePlace", "F_C03_Counts", "F_C03_Quiescent", "F_C04_EOI", "F_C08_Cap",
           "F_C09_BlockingNoDiscard", "F_C09_NonBlockingNow", "F_C10_NoOrphan", "F_C10_GrantedUsed",
-          "F_C10_TakeInput", "F_C10_PushOutput", "F_C20_FiniteInstant"]
+          "F_C10_TakeInput", "F_C10_PushOutput", "F_C16_Recipe", "F_C16_SplitterEmits", "F_C20_FiniteInstant"]
 
 
 def _pol(p):
@@ -23,8 +23,10 @@ def supported(c):
     if c.get("expect") != "valid":
         return False
     for n in c["nodes"]:
-        if n["type"] not in ("source", "machine", "sink"):
+        if n["type"] not in ("source", "machine", "sink", "splitter", "combiner"):
             return False
+        if n["type"] == "combiner" and (n.get("policy_out", "FIRST_AVAILABLE") == "FIRST_AVAILABLE") and not n.get("blocking", True):
+            pass
         for k in ("policy_in", "policy_out"):
             if k in n and _pol(n[k]) is None:
                 return False
@@ -56,9 +58,10 @@ def to_model(c):
         ins = [j + 1 for j, e in enumerate(c["edges"]) if e["dst"] == i]
         outs = [j + 1 for j, e in enumerate(c["edges"]) if e["src"] == i]
         nodes.append({"type": n["type"], "blocking": bool(n.get("blocking", True)), "wc": n.get("wc", 1),
-                      "setup": n.get("setup", 0) if n["type"] == "machine" else 0,
+                      "setup": n.get("setup", 0) if n["type"] in ("machine", "splitter", "combiner") else 0,
+                      "recipe": list(n.get("recipe", [1])) if n["type"] == "combiner" else [1],
                       "iat": list(n.get("iat", [1])) if n["type"] == "source" else [1],
-                      "pd": list(n.get("pd", [1])) if n["type"] == "machine" else [1],
+                      "pd": list(n.get("pd", [1])) if n["type"] in ("machine", "splitter", "combiner") else [1],
                       "pin": _pol(n.get("policy_in", "FIRST_AVAILABLE")), "pout": _pol(n.get("policy_out", "FIRST_AVAILABLE")),
                       "ins": ins, "outs": outs})
     edges = []
